@@ -91,7 +91,9 @@ func GenerateHashFromEDSResourceNodeAnnotation(edsNamespace, edsName string, nod
 
 	resourcesAnnotations := []string{}
 	for key, value := range nodeAnnotations {
-		if strings.HasPrefix(key, prefixKey) {
+		// what follows the prefix is a container name, which cannot contain a dot: a key such as
+		// "<ns>.<eds>.bar.<container>" belongs to the ExtendedDaemonSet "<eds>.bar"
+		if strings.HasPrefix(key, prefixKey) && !strings.Contains(strings.TrimPrefix(key, prefixKey), ".") {
 			resourcesAnnotations = append(resourcesAnnotations, fmt.Sprintf("%s=%s", key, value))
 		}
 	}
